@@ -149,11 +149,11 @@ func (w *world) keygen(label string) *version {
 	var s *protos.Session
 	switch w.scheme {
 	case "frost":
-		s = protos.FrostKeygen(w.ids, w.t, false, []byte("kg"))
+		s = protos.FrostKeygen(reversed(w.ids), w.t, false, []byte("kg")) // the participant list in no particular order
 	case "taproot":
-		s = protos.FrostKeygen(w.ids, w.t, true, []byte("kg"))
+		s = protos.FrostKeygen(reversed(w.ids), w.t, true, []byte("kg"))
 	case "cmp":
-		s = protos.CmpKeygen(w.ids, w.t, []byte("kg"))
+		s = protos.CmpKeygen(reversed(w.ids), w.t, []byte("kg"))
 	case "doerner":
 		s = protos.DoernerKeygen(w.ids[0], w.ids[1], []byte("kg"))
 	}
@@ -614,8 +614,17 @@ func (w *world) probe(h histT, vers []*version) {
 				pres[id] = x.(*ecdsa.PreSignature)
 			}
 			// ... and every signer then signs with the version it picked
+			presBefore := map[party.ID]string{}
+			for id, p := range pres {
+				presBefore[id] = protos.Canon(p)
+			}
 			r2, err := protos.Run(protos.CmpPresignOnline(mat, pres, S, msg, []byte("on")), protos.RunOpts{Seed: w.seed + "/online/" + w.hist, Sched: sim.NewRng(uint64(len(w.hist)) * 37)})
 			w.stats["sessions"]++
+			for id, p := range pres {
+				if protos.Canon(p) != presBefore[id] {
+					w.violate("C01", "key-material-changed", fmt.Sprintf("cmp online signing changed the presignature object of party %q that it was given", id))
+				}
+			}
 			if err != nil {
 				return nil, err.Error()
 			}
@@ -625,6 +634,17 @@ func (w *world) probe(h histT, vers []*version) {
 		w.stats["sessions"]++
 		if err != nil {
 			return nil, err.Error()
+		}
+		if variant == "sign-reuse" {
+			// the same start functions start a second, identical session: nothing may be left over from the first
+			protos.ReuseStartFuncs = true
+			_, err1 := protos.Run(s, protos.RunOpts{Seed: w.seed + "/sign-r1/" + w.hist, Sched: sim.NewRng(uint64(len(w.hist)) * 41)})
+			r2, err2 := protos.Run(s, protos.RunOpts{Seed: w.seed + "/sign-r2/" + w.hist, Sched: sim.NewRng(uint64(len(w.hist)) * 43)})
+			protos.ReuseStartFuncs = false
+			w.stats["sessions"] += 2
+			if err1 == nil && err2 == nil {
+				r = r2 // judged below like any other signing session
+			}
 		}
 		for _, a := range r.Anomalies {
 			w.violate("C05", "crash", fmt.Sprintf("%s signing: %s", w.scheme, a))
@@ -650,6 +670,9 @@ func (w *world) probe(h histT, vers []*version) {
 	if w.scheme != "cmp" && expect == "ok" {
 		// the same material OBJECTS sign a second time (another digest): signing must not wear the key material out
 		variants = append(variants, "sign-again")
+		if len(w.hist)%2 == 0 {
+			variants = append(variants, "sign-reuse")
+		}
 	}
 	// the signer list is handed over in no particular order
 	if len(w.hist)%2 == 1 {
